@@ -186,6 +186,11 @@ func (c *Config) handleSvcConfigUpdate(svcName string, newCfg *service.Config) {
 	if sw.Endpoints == nil {
 		return
 	}
+	if oldCfg != nil && oldCfg.Validate() != nil && newCfg.Validate() == nil {
+		// No processor could be created from the invalid config, announce the
+		// service again (ignored if a processor is still running).
+		c.emitSvcAddEvent(sw)
+	}
 	switch oldCfg {
 	case nil:
 		c.emitSvcAddEvent(sw)
